@@ -487,10 +487,12 @@ def gen_op(rng, name, c):
     elif name == 'groupBy':
         a['l'] = K()
         a['l2'] = S() if rng.random() < 0.4 else None
-        a['l3'] = rng.choice([ARG, ['index', ARG, 0], ['index', ARG, 1], ['index', ARG, -1], ['const', 0], ['pair', ARG, ARG],
+        a['l3'] = rng.choice([['pair', ['index', ARG, 0], ['sum', ['index', ARG, 1]]], ['pair', ['index', ARG, 0], ['len', ['index', ARG, 1]]],
+                              ['pair', ['index', ARG, 0], ['index', ARG, 1]], ['pair', ['index', ARG, 0], ['first', ['index', ARG, 1], []]],
+                              ARG, ['index', ARG, 0], ['index', ARG, 1], ['index', ARG, -1], ['const', 0], ['pair', ARG, ARG],
                               ['mul', ARG, 2], ['add', ARG, 1], ['not', ARG], ['eq', ARG, (1, 2)], ['len', ARG], ['sum', ARG],
                               ['first', ARG, []], ['where', ARG, ['gt', ARG, 0]], ['select', ARG, ['str', ARG]]]) \
-            if rng.random() < 0.35 else None
+            if rng.random() < 0.45 else None
     elif name == 'join':
         a['vs'] = tuple(elems(rng, c.profile, rng.randrange(0, 4)))
         a['f2'], a['g2'] = lam2_for(rng, 'pred', c.profile), lam2_for(rng, 'sel', c.profile)
